@@ -13,17 +13,55 @@ class ModelTraitError(Exception):
     pass
 
 
+class Spell:
+    """A coercible spelling of the int ``n`` with a hash that does not depend
+    on PYTHONHASHSEED (strings inside sets would make iteration order, and so
+    the event log, depend on the hash seed)."""
+    __slots__ = ("n",)
+
+    def __init__(self, n):
+        self.n = n
+
+    def __eq__(self, other):
+        return type(other) is Spell and other.n == self.n
+
+    def __ne__(self, other):
+        return not self.__eq__(other)
+
+    def __hash__(self):
+        return self.n * 7919 + 13
+
+    def __repr__(self):
+        return "Spell(%d)" % self.n
+
+    def __reduce__(self):
+        return (Spell, (self.n,))
+
+
+OBJECTS = {}     # per-run pool for {"t": "obj", "i": n} specs (set by the executor)
+
+
 def raw(spec):
     t = spec["t"]
-    if t in ("int", "str"):
+    if t in ("int", "str", "float"):
         return spec["v"]
     if t == "bad":
         return None
+    if t == "list":
+        return [raw(s) for s in spec["vs"]]
+    if t == "spell":
+        return Spell(spec["v"])
+    if t == "obj":
+        return OBJECTS[spec["i"]]
     raise AssertionError(spec)
 
 
 def mval(spec, vkind):
-    """The model's validator."""
+    """The model's validator.  ``vkind`` is 'none', 'coerce', 'point' or a
+    callable implementing the model of an inner trait (spec -> value, raising
+    ModelTraitError)."""
+    if callable(vkind):
+        return vkind(spec)
     t = spec["t"]
     if t == "int":
         return spec["v"]
@@ -31,6 +69,8 @@ def mval(spec, vkind):
         return raw(spec)
     if t == "str":
         return int(spec["v"])
+    if t == "spell":
+        return spec["v"]
     if t == "bad":
         raise ModelTraitError()
     raise AssertionError(spec)
@@ -48,11 +88,13 @@ class Coerce:
         if self.site is not None:
             env = CUR["env"]
             if env is not None:
-                env.point(self.site, item if isinstance(item, (int, str)) else None)
+                env.point(self.site, item if isinstance(item, (int, str)) else repr(item))
         if type(item) is int:
             return item
         if type(item) is str and item.isdigit():
             return int(item)
+        if type(item) is Spell:
+            return item.n
         from traits.trait_errors import TraitError
         raise TraitError("bad item %r" % (item,))
 
